@@ -161,6 +161,42 @@ func runAcceptSuite(seed uint64, n int, out *Out, stats *Stats) {
 		}
 		// the block under test: the pool holds anything an honest pool may hold
 		var kinds []string
+		if r.Chance(1, 4) {
+			// a pool that outlived a block it did not go into: A admits payments, another validator wins
+			// the slot, A adopts that block by sync (its own tick for the slot comes too late). The pooled
+			// payments are now dated before the tip: the next production must drop every one of them.
+			stale := 0
+			for _, wl := range w.wallets {
+				for _, u := range w.confirmed(A, wl) {
+					if stale < 2+r.Intn(3) && u.value > 3*set.Fee+30 {
+						tx := w.build(&txPlan{ins: []spendable{u}, outs: []*JOutput{{w.wallets[r.Intn(5)].Addr, false, (u.value - set.Fee) / 2}, {wl.Addr, false, u.value - set.Fee - (u.value-set.Fee)/2 - 1}}, ts: w.now})
+						before := len(A.Pool.Transactions())
+						A.Pool.AddTransaction(tx, "a", "b")
+						if len(A.Pool.Transactions()) > before {
+							stale++
+						}
+						break
+					}
+				}
+			}
+			other := NewNode(set, w.wallets[3].Addr)
+			other.Pool.Validate(first)
+			helperSync(other, w.now, []*Peer{peerA()})
+			w.now += set.Interval
+			other.Pool.Validate(w.now)
+			other.Log.Take()
+			po := func() *Peer { return honestPeer("10.5.0.9:10600", other) }
+			helperSync(A, w.now, []*Peer{po()})
+			A.Pool.Validate(w.now) // too late: the slot is taken
+			A.Log.Take()
+			for _, f := range followers {
+				f.Update(w.now, []*Peer{po()})
+			}
+			if stale > 0 && len(A.Pool.Transactions()) >= stale {
+				kinds = append(kinds, fmt.Sprintf("stale-pool-%d", stale))
+				stats.Count("accept/pool outlived an adopted block")
+			}
+		}
 		if r.Chance(1, 3) {
 			// an order-dependent pair: both pooled, only one order can be produced
 			w.rec = nil
